@@ -444,10 +444,19 @@ inductive GenOut
   | stuck
   deriving DecidableEq, Repr
 
+/-- answer of `GenMetricID` when the namespace / metric-name limits are on -/
+inductive LimOut
+  | out (o : GenOut)
+  | tooManyNamespaces
+  | tooManyMetrics
+  deriving DecidableEq, Repr
+
 structure Limits where
   maxFields : Nat := 256     -- Limits.MaxFieldsPerMetric
   maxTags : Nat := 32        -- Limits.MaxTagsPerMetric
   maxSeries : Nat := 200000  -- Limits.MaxSeriesPerMetric
+  maxNamespaces : Nat := 0   -- Limits.MaxNamespaces (0 = no check)
+  maxMetrics : Nat := 0      -- Limits.MaxMetrics (0 = no check)
   deriving DecidableEq, Repr
 
 /-- the locked part of `genFieldID` on the schema pointer `p` -/
@@ -628,6 +637,30 @@ def genMetric (c : Cfg) (nd : Node) (nb nsName name : Nat) : Node × GenOut :=
     match r2.2.2 with
     | none => (nd, .stuck)
     | some i => (nd, .id i)
+
+/-- `createValue` whose createFn returns an error: the bucket's map was made before createFn ran
+(`s.mutable.Put(bucketID, kvs)`, so `mutable.IsEmpty()` is false from now on), nothing is stored under the
+name, no counter moves -/
+def _root_.LinVerif.IdAssign.KvStore.refused (s : KvStore) : KvStore := { s with mutEmpty := false }
+
+/-- `GenMetricID` with the namespace / metric-name limits: createFn of the namespace dictionary is `genNSID`
+(`EnableNamespacesCheck() && MaxNamespaces < sequence.GetNamespaceSeq()` → ErrTooManyNamespace), of the
+metric dictionary `genMetricID` (the same with MaxMetrics). createFn runs only when the name is in neither
+memory map nor the snapshot; the counter value it compares with is the number of ids handed out so far. -/
+def genMetricLim (c : Cfg) (nd : Node) (nb nsName name : Nat) : Node × LimOut :=
+  if (nd.ns.lookup nb nsName).isNone ∧ nd.lim.maxNamespaces > 0 ∧ nd.lim.maxNamespaces < nd.seqMem.ns then
+    ({ nd with ns := nd.ns.refused }, .tooManyNamespaces)
+  else
+    let r := getOrCreate c.kv nd.ns nd.seqMem.ns nb nsName
+    let nd2 := afterAlloc c { nd with ns := r.1, seqMem := { nd.seqMem with ns := r.2.1 } }
+    match r.2.2 with
+    | none => (nd2, .out .stuck)
+    | some nsID =>
+      if (nd2.metric.lookup nsID name).isNone ∧ nd.lim.maxMetrics > 0 ∧ nd.lim.maxMetrics < nd2.seqMem.metric then
+        ({ nd2 with metric := nd2.metric.refused }, .tooManyMetrics)
+      else
+        let g := nd.genMetric c nb nsName name
+        (g.1, .out g.2)
 
 /-- `GetMetricID` (lookup only) -/
 def getMetric (nd : Node) (nb nsName name : Nat) : Option Nat :=
@@ -951,12 +984,14 @@ def run (c : Cfg) : Node → List Op → Node
 inductive FOp
   | op (o : Op)                       -- any operation of the sequential history model (crashes, reopen, failed metadata flushes included)
   | indexFlushFault (shard k : Nat)   -- one shard's real `Flush()` during which step `k` fails (k ≥ 4: no fault)
+  | metricLim (nb ns name : Nat)      -- `GenMetricID` under namespace / metric-name limits (may be refused)
   deriving Repr
 
 /-- `steps` / `abort`: order and control flow of `metricIndexDatabase.Flush` (regenerated facts, see IdAssignCfg) -/
 def fstep (c : Cfg) (steps : List Nat) (nd : Node) : FOp → Node
   | .op o => (step c nd o).1
   | .indexFlushFault sh k => (nd.indexFlushFault c.indexFlushAborts steps sh k).1
+  | .metricLim nb ns name => (nd.genMetricLim c nb ns name).1
 
 def frun (c : Cfg) (steps : List Nat) : Node → List FOp → Node
   | nd, [] => nd
